@@ -55,7 +55,7 @@ var c17Prefix = "S"
 func sn(k int) string { return fmt.Sprintf("%s%d", c17Prefix, k) }
 
 var c17FieldNames = []string{"A", "B", "C", "D"}
-var c17BaseTypes = []string{"int64", "string", "float64", "bool", "[]int64", "[]string"}
+var c17BaseTypes = []string{"int64", "string", "float64", "bool", "[]int64", "[]string", "[]float64"}
 // (mixed: an array of ints and strings; intsplus: an int array that a string was appended to - its cached type still
 // says ints; typeobj: a type itself, not a value of it; keysi/keyss: the key list of a hash, an array like any other)
 var c17Kinds = []string{"int", "char", "float", "bool", "string", "ints", "strs", "empty", "nil", "ptr0", "ptr1", "inst0", "inst1", "inst2", "nilarr", "listarr",
@@ -66,7 +66,8 @@ var c17Kinds = []string{"int", "char", "float", "bool", "string", "ints", "strs"
 	// records that carry the name of a type that is no struct (a record can be given any type name)
 	"recint", "recstr", "recslice", "recptr",
 	// an array that was typed (and accepted somewhere) as ints, grown by a string afterwards
-	"cachedplus"}
+	"cachedplus",
+	"floats", "floatint", "intfloat"}
 
 func typeSrc(t string) string {
 	switch {
@@ -102,6 +103,8 @@ func fits(kind, t string) bool {
 		return kind == "ints" || kind == "empty" || kind == "keysi" || kind == "mapints" || kind == "staleints" || kind == "staleempty"
 	case "[]string":
 		return kind == "strs" || kind == "empty" || kind == "keyss" || kind == "mapstrs"
+	case "[]float64":
+		return kind == "floats" || kind == "empty"
 	}
 	if strings.HasPrefix(t, "*S") {
 		return kind == "ptr"+t[2:]
@@ -173,6 +176,8 @@ func classifyVal(v zygo.Sexp) string {
 			return "ints"
 		case "string":
 			return "strs"
+		case "float":
+			return "floats"
 		}
 		return "arr-of-" + k
 	case *zygo.SexpPointer:
@@ -281,6 +286,12 @@ func execC17(body json.RawMessage) *kernel.Result {
 		case "staleints":
 			// ints in an array that was typed as strings while it held strings
 			return "(let [e [\"m\" \"n\"]] (" + helper + " M: e) (append (append (slice e 2 2) 1) 2))"
+		case "floats":
+			return "[1.5 2.5]"
+		case "floatint":
+			return "[1.5 2]"
+		case "intfloat":
+			return "[2 3.5]"
 		case "cachedplus":
 			return "(let [e [1 2]] (" + helper + ` N: e) (append e "z"))`
 		case "recint":
@@ -484,7 +495,7 @@ func execC17(body json.RawMessage) *kernel.Result {
 				}
 				if op.Op == "decode" {
 					js := map[string]string{"int": "7", "float": "2.5", "bool": "true", "string": `\"s\"`, "ints": "[1, 2]", "strs": `[\"a\", \"b\"]`, "empty": "[]", "nil": "null", "mixed": `[1, \"a\"]`, "keysi": "[5, 6]", "keyss": `[\"k\"]`,
-						"recint": `{\"Atype\":\"int64\", \"a\":1}`, "recstr": `{\"Atype\":\"string\", \"a\":\"q\"}`, "recslice": `{\"Atype\":\"[]int64\", \"a\":1}`}[in.Kind]
+						"floats": "[1.5, 2.5]", "floatint": "[1.5, 2]", "intfloat": "[2, 3.5]", "recint": `{\"Atype\":\"int64\", \"a\":1}`, "recstr": `{\"Atype\":\"string\", \"a\":\"q\"}`, "recslice": `{\"Atype\":\"[]int64\", \"a\":1}`}[in.Kind]
 					if strings.HasPrefix(in.Kind, "inst") {
 						// a nested record carrying its own type name; sometimes with a member of the wrong kind / not declared
 						var k int
